@@ -1510,3 +1510,98 @@ func (an *totalAnalysis) run() {
 }
 
 func joinStrs(s []string) string { return strings.Join(s, ", ") }
+
+// poolAssertOK: x.(T) on the result of a package-level sync.Pool's Get is safe
+// when the pool's New function returns a T and every Put in the module hands a
+// T back (so the dynamic type of what Get returns is always T).
+func poolAssertOK(l *Loaded, ta *ssa.TypeAssert) bool {
+	call, ok := stripTrivial(ta.X).(*ssa.Call)
+	if !ok {
+		return false
+	}
+	f := staticCallee(&call.Call)
+	if f == nil || f.String() != "(*sync.Pool).Get" || len(call.Call.Args) == 0 {
+		return false
+	}
+	// the pool is a package-level variable: either the struct itself (&pool) or a pointer to it (*poolVar)
+	var g *ssa.Global
+	switch rv := stripTrivial(call.Call.Args[0]).(type) {
+	case *ssa.Global:
+		g = rv
+	case *ssa.UnOp:
+		g, _ = rv.X.(*ssa.Global)
+	}
+	if g == nil {
+		return false
+	}
+	isPool := func(v ssa.Value) bool {
+		v = stripTrivial(v)
+		if v == ssa.Value(g) {
+			return true
+		}
+		if u, isU := v.(*ssa.UnOp); isU && u.X == ssa.Value(g) {
+			return true
+		}
+		// the struct allocated by the variable's initialiser
+		if al, isAl := v.(*ssa.Alloc); isAl {
+			for _, r := range refs(al) {
+				if st, isSt := r.(*ssa.Store); isSt && st.Val == ssa.Value(al) && st.Addr == ssa.Value(g) {
+					return true
+				}
+			}
+		}
+		return false
+	}
+	want := ta.AssertedType
+	sawNew := false
+	okAll := true
+	fns := append([]*ssa.Function{}, l.SrcFuncs...)
+	for _, sp := range l.byPkg {
+		if init := sp.Func("init"); init != nil {
+			fns = append(fns, init)
+			fns = append(fns, init.AnonFuncs...)
+		}
+	}
+	for _, fn := range fns {
+		if !l.inModule(fn) {
+			continue
+		}
+		allInstrs(fn, func(in ssa.Instruction) {
+			// Put(x)
+			if cc := callCommon(in); cc != nil {
+				if pf := staticCallee(cc); pf != nil && pf.String() == "(*sync.Pool).Put" && len(cc.Args) == 2 && isPool(cc.Args[0]) {
+					mi, isMI := cc.Args[1].(*ssa.MakeInterface)
+					if !isMI || !types.Identical(mi.X.Type(), want) {
+						okAll = false
+					}
+				}
+			}
+			// New: store of a function into the pool's New field
+			if st, isSt := in.(*ssa.Store); isSt {
+				fa, isFA := st.Addr.(*ssa.FieldAddr)
+				if !isFA || !isPool(fa.X) || fieldName(fa.X.Type(), fa.Field) != "New" {
+					return
+				}
+				var nf *ssa.Function
+				switch v := stripTrivial(st.Val).(type) {
+				case *ssa.Function:
+					nf = v
+				case *ssa.MakeClosure:
+					nf, _ = v.Fn.(*ssa.Function)
+				}
+				if nf == nil {
+					okAll = false
+					return
+				}
+				sawNew = true
+				for _, r := range returnsOf(nf) {
+					mi, isMI := retVal(r, 0).(*ssa.MakeInterface)
+					if !isMI || !types.Identical(mi.X.Type(), want) {
+						okAll = false
+					}
+				}
+			}
+		})
+	}
+	return sawNew && okAll
+}
